@@ -15,7 +15,7 @@ RULE = (
     "spurious/deleted instances, either side empty; 5 % long 1-D maps given as runs, up to ~200k voxels, so that "
     "coordinates pass 2^8 and 2^16) x input type {SEMANTIC, UNMATCHED_INSTANCE, MATCHED_INSTANCE} x "
     "backend {default, cc3d, scipy} x matching metric {IoU, Dice, ASSD} x threshold (grid, floats, exact candidate "
-    "scores) x decision metric {none, IoU, Dice, ASSD} with threshold; instance metrics always {DSC, IOU, ASSD, RVD}. "
+    "scores) x decision metric {none, IoU, Dice, ASSD} with threshold; instance metrics {DSC, IOU, ASSD, RVD} or, in a sixth of the cases, a subset incl. the empty list. "
     "Exhaustive sub-domains: all 1-D unmatched pairs up to length 4 (quick) / 5 (thorough) over labels {0,1,2} at "
     "thresholds {1/2, 1/3}; all 2x3 binary semantic pairs under the three backends; thorough adds all 2x2x2 binary "
     "semantic pairs (default backend). Oracle: the reference model's pipeline (flood-fill components, candidate scores "
@@ -97,6 +97,12 @@ def case_strategy(draw, allow_rle=False):
     if rle is not None:
         case["rle"] = rle
         del case["pred"], case["ref"]
+    # instance metrics: usually all four; sometimes a subset, possibly the empty list (then only counts remain)
+    if draw(st.integers(0, 5)) == 0:
+        sub = draw(st.lists(st.sampled_from(PM.METRICS), min_size=0, max_size=3, unique=True))
+        if dec and dec[0] not in sub:
+            sub.append(dec[0])
+        case["imetrics"] = [m for m in PM.METRICS if m in sub]
     case["primes"] = draw(st.lists(st.sampled_from(sorted(lib.PRIMES)), min_size=0, max_size=2)) if draw(st.integers(0, 2)) == 0 else []
     return case
 
@@ -148,7 +154,7 @@ def resolve(case):
     candidate scores."""
     pred, ref = case_arrays(case)
     pred, ref = pred.astype(case["dtype"]), ref.astype(case["dtype"])
-    cfg = {"input": case["input"], "backend": case.get("backend"), "imetrics": PM.METRICS, "gmetrics": []}
+    cfg = {"input": case["input"], "backend": case.get("backend"), "imetrics": case.get("imetrics", PM.METRICS), "gmetrics": []}
     pin = PM.model_instances(pred, case["input"], case.get("backend"))
     rin = PM.model_instances(ref, case["input"], case.get("backend"))
     if case.get("matcher"):
@@ -169,7 +175,8 @@ def resolve(case):
 def check(case, stats):
     lib.run_primes(case.get("primes"))
     pred, ref, cfg = resolve(case)
-    exps, complete, info = PM.expected_results(pred, ref, cfg)
+    mets = cfg["imetrics"]
+    exps, complete, info = PM.expected_results(pred, ref, cfg, metrics=mets)
     cands = info["cands"]
     nontrivial = info["n_pred"] > 0 and info["n_ref"] > 0 and len(cands) >= 1
     classes = [f"input={cfg['input']}", f"ndim={ref.ndim}"]
@@ -177,6 +184,8 @@ def check(case, stats):
         classes.append("long_1d_runs" + (">65535" if ref.size > 65535 else ""))
     if case.get("primes"):
         classes.append("primed_with_other_objects")
+    if len(mets) < 4:
+        classes.append(f"instance_metrics={len(mets)}")
     if cfg.get("matcher"):
         classes.append(f"mmetric={cfg['matcher']['metric']}")
         thr = cfg["matcher"]["thr"]
@@ -195,7 +204,7 @@ def check(case, stats):
             classes.append("diagonal_or_multilabel_contact")
     if cfg.get("decision"):
         classes.append(f"decision={cfg['decision'][0]}")
-        nodec = PM.expected_results(pred, ref, {**cfg, "decision": None})[0]
+        nodec = PM.expected_results(pred, ref, {**cfg, "decision": None}, metrics=mets)[0]
         if any(e["tp"] < n["tp"] for e, n in zip(exps, nodec)):
             classes.append("decision_rejects")
     if info["n_pred"] == 0 or info["n_ref"] == 0:
@@ -205,8 +214,8 @@ def check(case, stats):
     ev = lib.evaluator(cfg)
     pc, rc = pred.copy(), ref.copy()
     res = H.lib_call(ev.evaluate, pred, ref)["ungrouped"][0]
-    lr = PM.lib_result(res)
-    msg = PM.decide(lr, exps, complete)
+    lr = PM.lib_result(res, metrics=mets)
+    msg = PM.decide(lr, exps, complete, metrics=mets)
     if msg:
         raise Violation(msg)
     if complete and len(exps) == 1:
